@@ -1,24 +1,986 @@
-//! C18 — not implemented yet (stub so that the registry compiles).
+//! C18 — virtual keys obey press / release / tap / toggle and their timed forms.
+//!
+//! Oracle: a reference model written from the configuration guide ("Virtual keys"): press (nothing
+//! if pressed), release (nothing if up), tap (press+release; only releases if pressed), toggle; the
+//! same effect whichever way the operation is triggered (on-press, on-release, the legacy
+//! on-press-fakekey / on-release-fakekey forms, a macro item, completion of a defseq sequence, a
+//! direct fake-key call as the TCP server makes it). `hold-for-duration D`: one press from the first
+//! activation until D after the latest activation, no events on a re-trigger. `on-idle D`: fires
+//! once when kanata has been idle for D ticks and not before. The timed forms are compared tick by
+//! tick against a model that uses the processing discipline of DESIGN appendix A (one queued event
+//! per tick, virtual key events share the queue with physical ones).
 
+use crate::core::sim::{code_name, osc, render_hist, Ev, OutKind, Sim};
 use crate::core::{CaseOut, Check, Ctx};
+use serde_json::{json, Value};
+use std::collections::VecDeque;
 
 pub struct C18Check;
 pub static C18: C18Check = C18Check;
+
+// ------------------------------------------------------------------------------------------------
+// part A: operation histories
+
+#[derive(Clone, Copy, PartialEq, Eq, Debug)]
+enum Op {
+    Press,
+    Release,
+    Tap,
+    Toggle,
+}
+const OPS: [Op; 4] = [Op::Press, Op::Release, Op::Tap, Op::Toggle];
+impl Op {
+    fn new_name(self) -> &'static str {
+        match self {
+            Op::Press => "press-vkey",
+            Op::Release => "release-vkey",
+            Op::Tap => "tap-vkey",
+            Op::Toggle => "toggle-vkey",
+        }
+    }
+    fn old_name(self) -> &'static str {
+        match self {
+            Op::Press => "press",
+            Op::Release => "release",
+            Op::Tap => "tap",
+            Op::Toggle => "toggle",
+        }
+    }
+    fn ch(self) -> char {
+        match self {
+            Op::Press => 'p',
+            Op::Release => 'r',
+            Op::Tap => 't',
+            Op::Toggle => 'g',
+        }
+    }
+}
+
+#[derive(Clone, Copy, PartialEq, Eq, Debug)]
+enum Kind {
+    /// plain key action; the string is the output key
+    Key(&'static str),
+    /// layer-while-held nav
+    Layer,
+    /// macro typing one key; only tapped (a macro cannot be "held")
+    Macro(&'static str),
+}
+
+#[derive(Clone, Copy, PartialEq, Eq, Debug)]
+enum Path {
+    Direct,
+    OnPress,
+    OnRelease,
+    LegacyPress,
+    LegacyRelease,
+    MacroItem,
+    /// taps through defseq completion, every other operation as a direct call
+    Seq,
+}
+const PATHS: [Path; 7] = [Path::Direct, Path::OnPress, Path::OnRelease, Path::LegacyPress, Path::LegacyRelease, Path::MacroItem, Path::Seq];
+
+struct VSet {
+    name: &'static str,
+    kinds: &'static [Kind],
+}
+const VSETS: &[VSet] = &[
+    VSet { name: "key", kinds: &[Kind::Key("1")] },
+    VSet { name: "key+key", kinds: &[Kind::Key("1"), Kind::Key("2")] },
+    VSet { name: "key+layer", kinds: &[Kind::Key("1"), Kind::Layer] },
+    VSet { name: "key+layer+macro", kinds: &[Kind::Key("1"), Kind::Layer, Kind::Macro("y")] },
+];
+const VNAMES: [&str; 3] = ["k1", "k2", "k3"];
+const TRIG: [&str; 12] = ["a", "b", "c", "d", "e", "f", "g", "h", "i", "j", "k", "l"];
+const PROBE: &str = "z";
+const PROBE_NAV: &str = "9";
+/// sequence keys per virtual key (typed after the leader key)
+const SEQ_KEYS: [[&str; 2]; 3] = [["b", "c"], ["d", "e"], ["f", "g"]];
+
+#[derive(Clone, Debug)]
+struct ConfA {
+    vset: usize,
+    path: Path,
+}
+
+impl ConfA {
+    fn alphabet(&self) -> Vec<(usize, Op)> {
+        let mut v = vec![];
+        for (i, k) in VSETS[self.vset].kinds.iter().enumerate() {
+            for op in OPS {
+                if matches!(k, Kind::Macro(_)) && op != Op::Tap {
+                    continue;
+                }
+                v.push((i, op));
+            }
+        }
+        v
+    }
+    fn label(&self) -> String {
+        format!("{}|{:?}", VSETS[self.vset].name, self.path)
+    }
+    fn text(&self) -> String {
+        let vs = &VSETS[self.vset];
+        let legacy = matches!(self.path, Path::LegacyPress | Path::LegacyRelease);
+        let mut vk = String::new();
+        for (i, k) in vs.kinds.iter().enumerate() {
+            let act = match k {
+                Kind::Key(o) => o.to_string(),
+                Kind::Layer => "(layer-while-held nav)".into(),
+                Kind::Macro(o) => format!("(macro {o})"),
+            };
+            vk.push_str(&format!(" {} {}", VNAMES[i], act));
+        }
+        let alpha = self.alphabet();
+        let mut acts: Vec<String> = vec![];
+        for j in 0..TRIG.len() {
+            let a = match (self.path, alpha.get(j)) {
+                (Path::Direct, _) | (_, None) => "XX".to_string(),
+                (Path::Seq, _) => {
+                    if j == 0 {
+                        "sldr".into()
+                    } else {
+                        TRIG[j].to_string()
+                    }
+                }
+                (Path::OnPress, Some((v, op))) => format!("(on-press {} {})", op.new_name(), VNAMES[*v]),
+                (Path::OnRelease, Some((v, op))) => format!("(on-release {} {})", op.new_name(), VNAMES[*v]),
+                (Path::LegacyPress, Some((v, op))) => format!("(on-press-fakekey {} {})", VNAMES[*v], op.old_name()),
+                (Path::LegacyRelease, Some((v, op))) => format!("(on-release-fakekey {} {})", VNAMES[*v], op.old_name()),
+                (Path::MacroItem, Some((v, op))) => format!("(macro (on-press {} {}))", op.new_name(), VNAMES[*v]),
+            };
+            acts.push(a);
+        }
+        if self.path == Path::Seq {
+            // every trigger position is a plain key so that sequences can be typed
+            for (j, a) in acts.iter_mut().enumerate() {
+                if j > 0 {
+                    *a = TRIG[j].to_string();
+                }
+            }
+        }
+        let mut s = format!("(defcfg process-unmapped-keys yes sequence-timeout 200)\n(defsrc {} {PROBE})\n", TRIG.join(" "));
+        s.push_str(&format!("({}{})\n", if legacy { "deffakekeys" } else { "defvirtualkeys" }, vk));
+        s.push_str(&format!("(deflayer base {} {PROBE})\n", acts.join(" ")));
+        s.push_str(&format!("(deflayer nav {} {PROBE_NAV})\n", vec!["_"; TRIG.len()].join(" ")));
+        if self.path == Path::Seq {
+            for i in 0..vs.kinds.len() {
+                s.push_str(&format!("(defseq {} ({} {}))\n", VNAMES[i], SEQ_KEYS[i][0], SEQ_KEYS[i][1]));
+            }
+        }
+        s
+    }
+}
+
+fn configs_a() -> Vec<ConfA> {
+    let mut v = vec![];
+    for vset in 0..VSETS.len() {
+        for path in PATHS {
+            v.push(ConfA { vset, path });
+        }
+    }
+    v
+}
+
+fn hist_len(ctx: &Ctx, c: &ConfA) -> u32 {
+    let quick = ctx.tier == crate::core::Tier::Quick;
+    match (c.vset, c.path) {
+        (0, _) => {
+            if quick {
+                5
+            } else {
+                7
+            }
+        }
+        (_, Path::Direct) | (_, Path::OnPress) => {
+            if quick {
+                5
+            } else if c.vset == 3 {
+                6
+            } else {
+                7
+            }
+        }
+        _ => {
+            if quick {
+                4
+            } else {
+                6
+            }
+        }
+    }
+}
+
+fn n_hist(alpha: u64, n: u32) -> u64 {
+    (1..=n).map(|k| alpha.pow(k)).sum()
+}
+
+fn decode_hist(mut idx: u64, alpha: u64, nmax: u32) -> Vec<usize> {
+    let mut n = 1;
+    while n <= nmax {
+        let b = alpha.pow(n);
+        if idx < b {
+            break;
+        }
+        idx -= b;
+        n += 1;
+    }
+    let mut v = vec![];
+    for _ in 0..n {
+        v.push((idx % alpha) as usize);
+        idx /= alpha;
+    }
+    v
+}
+
+/// thorough tier: histories beyond this many per configuration are sampled with a fixed stride
+const CAP_A: u64 = 1_200_000;
+const STRIDE: u64 = 1_000_003;
+const CHUNK_A: u64 = 2048;
+
+struct NamesA {
+    out: Vec<String>, // per vkey: output key name ("" for layer)
+    probe: String,
+    probe_nav: String,
+}
+
+fn quiet_settle(sim: &mut Sim, min: u64, quiet: u64, max: u64) -> bool {
+    let start = sim.now;
+    loop {
+        let since_out = sim.trace.last().map(|o| sim.now - o.at).unwrap_or(u64::MAX);
+        let l = sim.k.layout.b();
+        let busy = !l.queue.is_empty() || !l.active_sequences.is_empty() || !l.action_queue.is_empty();
+        if sim.now - start >= min && since_out >= quiet && !busy {
+            return true;
+        }
+        if sim.now - start >= max {
+            return false;
+        }
+        sim.tick();
+    }
+}
+
+fn tap_phys(sim: &mut Sim, key: &str, h: &mut Vec<Ev>) {
+    let c = osc(key);
+    sim.press(c);
+    sim.ticks(2);
+    sim.release(c);
+    sim.ticks(2);
+    h.extend([Ev::P(c), Ev::T(2), Ev::R(c), Ev::T(2)]);
+}
+
+fn apply_op(sim: &mut Sim, c: &ConfA, j: usize, v: usize, op: Op, h: &mut Vec<Ev>) -> bool {
+    let before = sim.now;
+    match c.path {
+        Path::Direct => {
+            sim.fakekey(VNAMES[v], op.ch());
+            h.push(Ev::Fk(VNAMES[v].to_string(), op.ch()));
+        }
+        Path::Seq => {
+            if op == Op::Tap {
+                tap_phys(sim, TRIG[0], h);
+                tap_phys(sim, SEQ_KEYS[v][0], h);
+                tap_phys(sim, SEQ_KEYS[v][1], h);
+            } else {
+                sim.fakekey(VNAMES[v], op.ch());
+                h.push(Ev::Fk(VNAMES[v].to_string(), op.ch()));
+            }
+        }
+        _ => tap_phys(sim, TRIG[j], h),
+    }
+    let ok = quiet_settle(sim, 4, 3, 80);
+    h.push(Ev::T((sim.now - before) as u32));
+    ok
+}
+
+#[derive(Clone, Debug, PartialEq, Eq)]
+struct OEv {
+    down: bool,
+    name: String,
+}
+
+fn run_history_a(sim: &mut Sim, c: &ConfA, ops: &[usize], nm: &NamesA) -> Option<(String, String, Value)> {
+    let vs = &VSETS[c.vset];
+    let alpha = c.alphabet();
+    sim.trace.clear();
+    sim.last_step_start = 0;
+    let mut hist: Vec<Ev> = vec![];
+    let mut pressed = vec![false; vs.kinds.len()];
+    let mut expected: Vec<OEv> = vec![];
+    let form = format!("{:?}", c.path);
+    let witness = |sim: &Sim, hist: &[Ev], expected: &[OEv], extra: String| {
+        json!({
+            "config": c.text(),
+            "history": render_hist(hist),
+            "operations": ops.iter().map(|j| format!("{}:{:?}", VNAMES[alpha[*j].0], alpha[*j].1)).collect::<Vec<_>>(),
+            "observed": sim.trace.iter().filter(|o| !o.redundant).map(|o| format!("{}{}", if o.kind == OutKind::Down { "↓" } else { "↑" }, o.name)).collect::<Vec<_>>(),
+            "expected": expected.iter().map(|e| format!("{}{}", if e.down { "↓" } else { "↑" }, e.name)).collect::<Vec<_>>(),
+            "detail": extra,
+        })
+    };
+    for (step, j) in ops.iter().enumerate() {
+        let (v, op) = alpha[*j];
+        // model
+        let was = pressed[v];
+        let (down_ev, up_ev) = match op {
+            Op::Press => (!was, false),
+            Op::Release => (false, was),
+            Op::Tap => (!was, true),
+            Op::Toggle => (!was, was),
+        };
+        match op {
+            Op::Press => pressed[v] = true,
+            Op::Release | Op::Tap => pressed[v] = false,
+            Op::Toggle => pressed[v] = !was,
+        }
+        match vs.kinds[v] {
+            Kind::Key(_) => {
+                if down_ev {
+                    expected.push(OEv { down: true, name: nm.out[v].clone() });
+                }
+                if up_ev {
+                    expected.push(OEv { down: false, name: nm.out[v].clone() });
+                }
+            }
+            Kind::Macro(_) => {
+                if down_ev {
+                    expected.push(OEv { down: true, name: nm.out[v].clone() });
+                    expected.push(OEv { down: false, name: nm.out[v].clone() });
+                }
+            }
+            Kind::Layer => {}
+        }
+        if !apply_op(sim, c, *j, v, op, &mut hist) {
+            return Some((format!("C18:ops:{form}:not-settled"), format!("after operation #{step} kanata kept producing output / stayed busy"), witness(sim, &hist, &expected, String::new())));
+        }
+        // state after the operation
+        for (i, k) in vs.kinds.iter().enumerate() {
+            match k {
+                Kind::Key(_) => {
+                    let os_down = sim.os.keys_down.contains(&nm.out[i]);
+                    if os_down != pressed[i] {
+                        let class = if op == Op::Toggle { "toggle" } else { op.old_name() };
+                        return Some((
+                            format!("C18:ops:{form}:state-after-{class}"),
+                            format!("after operation #{step} ({:?} {}) virtual key {} is {} for the OS but {} in the model", op, VNAMES[v], VNAMES[i], if os_down { "down" } else { "up" }, if pressed[i] { "down" } else { "up" }),
+                            witness(sim, &hist, &expected, String::new()),
+                        ));
+                    }
+                }
+                Kind::Layer => {
+                    let on = sim.k.layout.b().current_layer() != 0;
+                    if on != pressed[i] {
+                        let class = if op == Op::Toggle { "toggle" } else { op.old_name() };
+                        return Some((
+                            format!("C18:ops:{form}:layer-state-after-{class}"),
+                            format!("after operation #{step} ({:?} {}) the layer held by {} is {} but {} in the model", op, VNAMES[v], VNAMES[i], if on { "active" } else { "inactive" }, if pressed[i] { "active" } else { "inactive" }),
+                            witness(sim, &hist, &expected, String::new()),
+                        ));
+                    }
+                }
+                Kind::Macro(_) => {}
+            }
+        }
+    }
+    // probe the layer through the OS stream
+    let layer_on = vs.kinds.iter().enumerate().any(|(i, k)| *k == Kind::Layer && pressed[i]);
+    if vs.kinds.contains(&Kind::Layer) {
+        tap_phys(sim, PROBE, &mut hist);
+        quiet_settle(sim, 3, 2, 40);
+        let n = if layer_on { nm.probe_nav.clone() } else { nm.probe.clone() };
+        expected.push(OEv { down: true, name: n.clone() });
+        expected.push(OEv { down: false, name: n });
+    }
+    // the whole stream, order level
+    let observed: Vec<OEv> = sim
+        .trace
+        .iter()
+        .filter(|o| !o.redundant)
+        .map(|o| OEv { down: o.kind == OutKind::Down, name: if matches!(o.kind, OutKind::Down | OutKind::Up) && !o.repress { o.name.clone() } else { format!("<{:?}:{}>", o.kind, o.name) } })
+        .collect();
+    if observed != expected {
+        let acts_o = observed.iter().filter(|e| e.down).count();
+        let acts_e = expected.iter().filter(|e| e.down).count();
+        let class = if acts_o > acts_e {
+            "extra-output"
+        } else if acts_o < acts_e {
+            "missing-output"
+        } else {
+            "different-output"
+        };
+        return Some((format!("C18:ops:{form}:stream:{class}"), "the OS key stream differs from the model's".into(), witness(sim, &hist, &expected, String::new())));
+    }
+    // reset: release every virtual key directly
+    for i in 0..vs.kinds.len() {
+        if pressed[i] {
+            sim.fakekey(VNAMES[i], 'r');
+        }
+    }
+    quiet_settle(sim, 4, 3, 80);
+    if !sim.os.all_up() || sim.k.layout.b().current_layer() != 0 {
+        return Some((format!("C18:ops:{form}:reset"), "a direct release of every pressed virtual key did not bring everything up".into(), witness(sim, &hist, &expected, sim.os.describe())));
+    }
+    None
+}
+
+// ------------------------------------------------------------------------------------------------
+// parts B and C: timed forms, shared queue model
+
+#[derive(Clone, Copy, PartialEq, Eq, Debug)]
+enum QE {
+    /// physical press / release of key index k (0 = the timed-action key, 1 = a second key bound to
+    /// the same action, 2 = the plain probe key)
+    P(u8),
+    R(u8),
+    VPress,
+    VRelease,
+}
+
+#[derive(Clone, Debug, PartialEq, Eq)]
+struct TOut {
+    at: u64,
+    down: bool,
+    /// 0 = virtual key's output, 1 = probe key
+    key: u8,
+}
+
+#[derive(Default, Debug, Clone)]
+struct TStats {
+    rearms: u64,
+    episodes: u64,
+    idle_firings: u64,
+    idle_prevented: u64,
+}
+
+/// hold-for-duration model. `evs`: (arrival tick, event). Keys 0 and 1 both carry
+/// `(hold-for-duration D v)`, key 2 is a plain key.
+fn model_hfd(d: u64, evs: &[(u64, QE)], horizon: u64) -> (Vec<TOut>, TStats) {
+    let mut outs = vec![];
+    let mut st = TStats::default();
+    let mut q: VecDeque<QE> = VecDeque::new();
+    let mut next = 0;
+    let mut deadline: Option<u64> = None;
+    for tick in 1..=horizon {
+        while next < evs.len() && evs[next].0 < tick {
+            q.push_back(evs[next].1);
+            next += 1;
+        }
+        if let Some(e) = q.pop_front() {
+            match e {
+                QE::P(2) => outs.push(TOut { at: tick, down: true, key: 1 }),
+                QE::R(2) => outs.push(TOut { at: tick, down: false, key: 1 }),
+                QE::P(_) => match deadline {
+                    Some(_) => {
+                        deadline = Some(d);
+                        st.rearms += 1;
+                    }
+                    None => {
+                        q.push_back(QE::VPress);
+                        deadline = Some(d);
+                        st.episodes += 1;
+                    }
+                },
+                QE::R(_) => {}
+                QE::VPress => outs.push(TOut { at: tick, down: true, key: 0 }),
+                QE::VRelease => outs.push(TOut { at: tick, down: false, key: 0 }),
+            }
+        }
+        if let Some(x) = deadline {
+            let x = x - 1;
+            if x == 0 {
+                q.push_back(QE::VRelease);
+                deadline = None;
+            } else {
+                deadline = Some(x);
+            }
+        }
+    }
+    (outs, st)
+}
+
+/// on-idle model (tap action). Key 0 carries `(on-idle D tap-vkey v)`, key 2 is a plain key.
+/// Each loop iteration: the idle counter advances if kanata is idle (nothing queued, no key down),
+/// any input resets it; it fires in the tick the counter has reached D.
+fn model_idle(d: u64, evs: &[(u64, QE)], horizon: u64) -> (Vec<TOut>, TStats) {
+    let mut outs = vec![];
+    let mut st = TStats::default();
+    let mut q: VecDeque<QE> = VecDeque::new();
+    let mut next = 0;
+    let mut armed = false;
+    let mut counter = 0u64;
+    let mut down = [false; 4];
+    let mut was_counting = false;
+    for tick in 1..=horizon {
+        while next < evs.len() && evs[next].0 < tick {
+            q.push_back(evs[next].1);
+            next += 1;
+            if armed && was_counting {
+                st.idle_prevented += 1;
+                was_counting = false;
+            }
+            counter = 0;
+        }
+        // the loop consults the blocking predicate before every tick
+        let idle = q.is_empty() && !down.iter().any(|x| *x);
+        if !idle {
+            counter = 0;
+        } else if armed {
+            counter += 1;
+            was_counting = true;
+        }
+        if let Some(e) = q.pop_front() {
+            match e {
+                QE::P(2) => {
+                    down[2] = true;
+                    outs.push(TOut { at: tick, down: true, key: 1 });
+                }
+                QE::R(2) => {
+                    down[2] = false;
+                    outs.push(TOut { at: tick, down: false, key: 1 });
+                }
+                QE::P(k) => {
+                    // the on-idle key itself holds a (custom) state while it is down
+                    down[k as usize] = true;
+                    armed = true;
+                    counter = 0;
+                }
+                QE::R(k) => down[k as usize] = false,
+                QE::VPress => {
+                    down[3] = true;
+                    outs.push(TOut { at: tick, down: true, key: 0 });
+                }
+                QE::VRelease => {
+                    down[3] = false;
+                    outs.push(TOut { at: tick, down: false, key: 0 });
+                }
+            }
+        }
+        if armed && counter >= d {
+            q.push_back(QE::VPress);
+            q.push_back(QE::VRelease);
+            armed = false;
+            was_counting = false;
+            st.idle_firings += 1;
+        }
+    }
+    (outs, st)
+}
+
+#[derive(Clone, Debug)]
+struct ConfT {
+    idle: bool,
+    d: u32,
+    legacy: bool,
+}
+const TKEYS: [&str; 3] = ["h", "j", "z"];
+
+impl ConfT {
+    fn text(&self) -> String {
+        let act = if self.idle {
+            if self.legacy {
+                format!("(on-idle-fakekey k1 tap {})", self.d)
+            } else {
+                format!("(on-idle {} tap-vkey k1)", self.d)
+            }
+        } else {
+            format!("(hold-for-duration {} k1)", self.d)
+        };
+        format!(
+            "(defcfg process-unmapped-keys yes)\n(defsrc {} {} {})\n({} k1 1)\n(deflayer base {act} {act} {})\n",
+            TKEYS[0],
+            TKEYS[1],
+            TKEYS[2],
+            if self.legacy { "deffakekeys" } else { "defvirtualkeys" },
+            TKEYS[2]
+        )
+    }
+    fn label(&self) -> String {
+        format!("{}|D{}{}", if self.idle { "on-idle" } else { "hold-for-duration" }, self.d, if self.legacy { "|legacy" } else { "" })
+    }
+}
+
+fn configs_t() -> Vec<ConfT> {
+    vec![
+        ConfT { idle: false, d: 10, legacy: false },
+        ConfT { idle: false, d: 40, legacy: false },
+        ConfT { idle: true, d: 10, legacy: false },
+        ConfT { idle: true, d: 40, legacy: false },
+        ConfT { idle: true, d: 10, legacy: true },
+    ]
+}
+
+/// Timed scenarios: a first tap of the timed-action key, then up to `n` further taps (of the same
+/// key, of the second key bound to the same action, or of the plain key), each a gap after the
+/// previous one. For hold-for-duration the gaps are press-to-press distances around D; for on-idle
+/// they are distances from the previous release around D.
+fn timed_scen(c: &ConfT, mut idx: u64, nmax: u32) -> Option<Vec<(u64, QE)>> {
+    let d = c.d as u64;
+    let gaps: Vec<u64> = if c.idle { vec![3, d - 1, d, d + 1, d + 2, 2 * d + 5] } else { vec![2, 3, d - 2, d - 1, d, d + 1, d + 2, 2 * d] };
+    let kinds: u64 = 3;
+    let per = gaps.len() as u64 * kinds * 2; // gap x key x hold length
+    let mut n = 0;
+    loop {
+        let b = per.pow(n);
+        if idx < b {
+            break;
+        }
+        idx -= b;
+        n += 1;
+        if n > nmax {
+            return None;
+        }
+    }
+    let mut evs = vec![];
+    let mut t = 0u64;
+    evs.push((t, QE::P(0)));
+    evs.push((t + 1, QE::R(0)));
+    let mut last_press = 0u64;
+    let mut last_release = 1u64;
+    for _ in 0..n {
+        let g = gaps[(idx % gaps.len() as u64) as usize];
+        idx /= gaps.len() as u64;
+        let k = (idx % kinds) as u8;
+        idx /= kinds;
+        let hold = [1u64, 4][(idx % 2) as usize];
+        idx /= 2;
+        t = if c.idle { last_release + g } else { (last_press + g).max(last_release + 1) };
+        evs.push((t, QE::P(k)));
+        evs.push((t + hold, QE::R(k)));
+        last_press = t;
+        last_release = t + hold;
+    }
+    Some(evs)
+}
+
+fn timed_space(c: &ConfT, nmax: u32) -> u64 {
+    let gaps = if c.idle { 6u64 } else { 8 };
+    let per = gaps * 3 * 2;
+    (0..=nmax).map(|n| per.pow(n)).sum()
+}
+
+fn run_timed(c: &ConfT, evs: &[(u64, QE)], nm: &(String, String)) -> (Vec<TOut>, Vec<String>, Vec<Ev>, bool) {
+    let Ok(mut sim) = Sim::new(&c.text()) else {
+        return (vec![], vec!["config rejected".into()], vec![], false);
+    };
+    let horizon = evs.last().map(|e| e.0).unwrap_or(0) + 3 * c.d as u64 + 30;
+    let mut hist = vec![];
+    let mut next = 0;
+    let mut gap = 0u32;
+    for tick in 1..=horizon {
+        while next < evs.len() && evs[next].0 < tick {
+            if gap > 0 {
+                hist.push(Ev::T(gap));
+                gap = 0;
+            }
+            let (code, press) = match evs[next].1 {
+                QE::P(k) => (osc(TKEYS[k as usize]), true),
+                QE::R(k) => (osc(TKEYS[k as usize]), false),
+                _ => (0, true),
+            };
+            if press {
+                sim.press(code);
+                hist.push(Ev::P(code));
+            } else {
+                sim.release(code);
+                hist.push(Ev::R(code));
+            }
+            next += 1;
+        }
+        // one iteration of the processing loop: blocking predicate (advances the idle counter), tick
+        let _ = sim.k.can_block_update_idle_waiting(1);
+        sim.tick();
+        gap += 1;
+    }
+    hist.push(Ev::T(gap));
+    let mut outs = vec![];
+    let mut raw = vec![];
+    for o in &sim.trace {
+        raw.push(o.short());
+        if o.redundant {
+            continue;
+        }
+        let key = if o.name == nm.0 {
+            0
+        } else if o.name == nm.1 {
+            1
+        } else {
+            9
+        };
+        let down = o.kind == OutKind::Down;
+        if !matches!(o.kind, OutKind::Down | OutKind::Up) || o.repress {
+            outs.push(TOut { at: o.at, down, key: 9 });
+        } else {
+            outs.push(TOut { at: o.at, down, key });
+        }
+    }
+    let ok = sim.os.all_up() && sim.is_idle();
+    (outs, raw, hist, ok)
+}
+
+fn render_touts(v: &[TOut], nm: &(String, String)) -> Vec<String> {
+    v.iter().map(|o| format!("{}{}@{}", if o.down { "↓" } else { "↑" }, match o.key { 0 => nm.0.as_str(), 1 => nm.1.as_str(), _ => "<unexpected>" }, o.at)).collect()
+}
+
+// ------------------------------------------------------------------------------------------------
+// part D: on-idle does not count while kanata is busy (macro running), invariant form
+
+fn busy_idle_case(out: &mut CaseOut) {
+    // key m plays a macro that takes ~L ticks; on-idle must fire no earlier than D ticks after the
+    // macro's last output, and exactly once
+    for d in [10u64, 30] {
+        for l in [15u64, 45] {
+            let cfg = format!("(defcfg process-unmapped-keys yes)\n(defsrc i m)\n(defvirtualkeys k1 1)\n(deflayer base (on-idle {d} tap-vkey k1) (macro a {l} b))\n");
+            let Ok(mut sim) = Sim::new(&cfg) else {
+                out.inconclusive = Some("busy-idle config rejected".into());
+                return;
+            };
+            let w = code_name(osc("1"));
+            let mut hist = vec![];
+            let (ci, cm) = (osc("i"), osc("m"));
+            let steps: Vec<(u64, u16, bool)> = vec![(0, ci, true), (2, ci, false), (4, cm, true), (6, cm, false)];
+            let mut next = 0;
+            for tick in 1..=(l + 3 * d + 60) {
+                while next < steps.len() && steps[next].0 < tick {
+                    if steps[next].2 {
+                        sim.press(steps[next].1);
+                        hist.push(Ev::P(steps[next].1));
+                    } else {
+                        sim.release(steps[next].1);
+                        hist.push(Ev::R(steps[next].1));
+                    }
+                    hist.push(Ev::T(2));
+                    next += 1;
+                }
+                let _ = sim.k.can_block_update_idle_waiting(1);
+                sim.tick();
+            }
+            out.inc("idle_busy_scenarios");
+            let fires: Vec<u64> = sim.trace.iter().filter(|o| o.kind == OutKind::Down && o.name == w).map(|o| o.at).collect();
+            let last_other = sim.trace.iter().filter(|o| o.name != w).map(|o| o.at).max().unwrap_or(0);
+            let wit = json!({"config": cfg, "history": render_hist(&hist), "observed": sim.trace_short(), "expected": format!("exactly one tap of {w}, not before tick {} (last macro output {last_other} + {d})", last_other + d)});
+            if fires.len() != 1 {
+                out.violate(if fires.is_empty() { "C18:on-idle:never-fired" } else { "C18:on-idle:fired-more-than-once" }, format!("on-idle {d} after a {l}-tick macro fired {} times", fires.len()), wit);
+                return;
+            }
+            if fires[0] < last_other + d {
+                out.violate("C18:on-idle:fired-while-busy", format!("on-idle {d} fired in tick {} although the macro's last output was in tick {last_other}", fires[0]), wit);
+                return;
+            }
+            if fires[0] > last_other + d + 6 {
+                out.violate("C18:on-idle:fired-late", format!("on-idle {d} fired in tick {}, more than {d}+6 ticks after the macro's last output in tick {last_other}", fires[0]), wit);
+                return;
+            }
+            out.inc("idle_firings_after_busy_period");
+        }
+    }
+}
+
+// ------------------------------------------------------------------------------------------------
+// cases
+
+#[derive(Clone, Debug)]
+enum CaseKind {
+    Ops(usize, u64, u64),
+    Timed(usize, u64, u64),
+    BusyIdle,
+}
+
+fn timed_n(ctx: &Ctx) -> u32 {
+    ctx.tier.sel(2, 3)
+}
+
+fn layout(ctx: &Ctx) -> Vec<CaseKind> {
+    let mut v = vec![];
+    for (ci, c) in configs_a().iter().enumerate() {
+        let tot = n_hist(c.alphabet().len() as u64, hist_len(ctx, c)).min(CAP_A);
+        let mut s = 0;
+        while s < tot {
+            v.push(CaseKind::Ops(ci, s, (s + CHUNK_A).min(tot)));
+            s += CHUNK_A;
+        }
+    }
+    for (ci, c) in configs_t().iter().enumerate() {
+        let tot = timed_space(c, timed_n(ctx));
+        let mut s = 0;
+        while s < tot {
+            v.push(CaseKind::Timed(ci, s, (s + 512).min(tot)));
+            s += 512;
+        }
+    }
+    v.push(CaseKind::BusyIdle);
+    v
+}
 
 impl Check for C18Check {
     fn id(&self) -> &'static str {
         "C18"
     }
-    fn n_cases(&self, _ctx: &Ctx) -> u64 {
-        0
+    fn n_cases(&self, ctx: &Ctx) -> u64 {
+        layout(ctx).len() as u64
     }
-    fn run_case(&self, _ctx: &Ctx, _idx: u64) -> CaseOut {
-        CaseOut::new()
+    fn describe(&self, ctx: &Ctx, idx: u64) -> Value {
+        match layout(ctx).get(idx as usize) {
+            Some(CaseKind::Ops(ci, a, b)) => json!({"config": configs_a()[*ci].text(), "histories": format!("operation histories #{a}..#{b}")}),
+            Some(CaseKind::Timed(ci, a, b)) => json!({"config": configs_t()[*ci].text(), "scenarios": format!("timed scenarios #{a}..#{b}")}),
+            _ => json!({"kind": "on-idle after a busy period"}),
+        }
+    }
+    fn run_case(&self, ctx: &Ctx, idx: u64) -> CaseOut {
+        let mut out = CaseOut::new();
+        let Some(kind) = layout(ctx).get(idx as usize).cloned() else { return out };
+        match kind {
+            CaseKind::BusyIdle => busy_idle_case(&mut out),
+            CaseKind::Ops(ci, a, b) => {
+                let confs = configs_a();
+                let c = &confs[ci];
+                let vs = &VSETS[c.vset];
+                let cfg = c.text();
+                let nm = NamesA {
+                    out: vs.kinds.iter().map(|k| match k {
+                        Kind::Key(o) | Kind::Macro(o) => code_name(osc(o)),
+                        Kind::Layer => String::new(),
+                    }).collect(),
+                    probe: code_name(osc(PROBE)),
+                    probe_nav: code_name(osc(PROBE_NAV)),
+                };
+                let mut sim = match Sim::new(&cfg) {
+                    Ok(s) => s,
+                    Err(e) => {
+                        out.inconclusive = Some(format!("config rejected ({}): {}", c.label(), e.lines().next().unwrap_or("")));
+                        return out;
+                    }
+                };
+                let alpha = c.alphabet();
+                let nmax = hist_len(ctx, c);
+                let space = n_hist(alpha.len() as u64, nmax);
+                let sampled = space > CAP_A;
+                let mut reported: std::collections::BTreeSet<String> = Default::default();
+                for i in a..b {
+                    let hidx = if sampled { i.wrapping_mul(STRIDE) % space } else { i };
+                    let ops = decode_hist(hidx, alpha.len() as u64, nmax);
+                    let mut res = run_history_a(&mut sim, c, &ops, &nm);
+                    if res.is_some() {
+                        // confirm on a fresh instance
+                        match Sim::new(&cfg) {
+                            Ok(mut fresh) => {
+                                let r2 = run_history_a(&mut fresh, c, &ops, &nm);
+                                if r2.is_none() {
+                                    out.inc("mismatch_not_reproduced_on_fresh_instance");
+                                    out.inconclusive = Some("a mismatch on a re-used instance did not reproduce on a fresh one".into());
+                                }
+                                res = r2;
+                            }
+                            Err(_) => {}
+                        }
+                        if let Ok(s2) = Sim::new(&cfg) {
+                            sim = s2;
+                        }
+                    }
+                    out.inc("op_histories");
+                    out.inc(&format!("op_histories_{:?}", c.path));
+                    out.count("operations", ops.len() as u64);
+                    for j in &ops {
+                        out.inc(&format!("ops_{}", alpha[*j].1.old_name()));
+                    }
+                    if ops.len() >= 2 {
+                        out.tag(format!("{}|{}", c.label(), ops.iter().take(4).map(|j| j.to_string()).collect::<Vec<_>>().join(",")));
+                    }
+                    if let Some((sig, what, wit)) = res {
+                        if reported.insert(sig.clone()) {
+                            out.violate(sig, format!("{}: {what}", c.label()), wit);
+                        }
+                    }
+                }
+                if a == 0 && ci % 7 == 3 {
+                    out.sample = Some(json!({"config": cfg, "histories": format!("all operation histories up to {nmax} operations over {} (virtual key, operation) pairs", alpha.len())}));
+                }
+            }
+            CaseKind::Timed(ci, a, b) => {
+                let confs = configs_t();
+                let c = &confs[ci];
+                let nm = (code_name(osc("1")), code_name(osc(TKEYS[2])));
+                let kind = if c.idle { "on-idle" } else { "hold-for-duration" };
+                let mut reported: std::collections::BTreeSet<String> = Default::default();
+                for i in a..b {
+                    let Some(evs) = timed_scen(c, i, timed_n(ctx)) else { continue };
+                    let horizon = evs.last().map(|e| e.0).unwrap_or(0) + 3 * c.d as u64 + 30;
+                    let (exp, st) = if c.idle { model_idle(c.d as u64, &evs, horizon) } else { model_hfd(c.d as u64, &evs, horizon) };
+                    let (obs, raw, hist, ok) = run_timed(c, &evs, &nm);
+                    out.inc("timed_scenarios");
+                    out.inc(&format!("timed_scenarios_{kind}"));
+                    out.count("hold_rearms", st.rearms);
+                    out.count("hold_episodes", st.episodes);
+                    out.count("idle_firings", st.idle_firings);
+                    out.count("idle_countdowns_interrupted", st.idle_prevented);
+                    out.tag(format!("{}|{}|{}|{}|{}", c.label(), evs.len(), st.rearms, st.episodes, st.idle_firings));
+                    let mut sig: Option<(String, String)> = None;
+                    if !ok {
+                        sig = Some((format!("C18:{kind}:stuck"), "a key stayed down or kanata did not become idle".into()));
+                    } else if obs != exp {
+                        let cnt = |v: &[TOut], down: bool| v.iter().filter(|o| o.key == 0 && o.down == down).count();
+                        let same_order = obs.len() == exp.len() && obs.iter().zip(&exp).all(|(x, y)| x.down == y.down && x.key == y.key);
+                        let class = if obs.iter().any(|o| o.key == 9) {
+                            "unexpected-output"
+                        } else if cnt(&obs, true) > cnt(&exp, true) {
+                            if c.idle { "fired-too-often-or-early" } else { "extra-events-on-retrigger" }
+                        } else if cnt(&obs, true) < cnt(&exp, true) {
+                            if c.idle { "not-fired" } else { "missing-press" }
+                        } else if same_order {
+                            "timing"
+                        } else {
+                            "order"
+                        };
+                        sig = Some((format!("C18:{kind}:{class}"), "the OS key stream differs from the model's".into()));
+                    }
+                    if let Some((sig, what)) = sig {
+                        if reported.insert(sig.clone()) {
+                            out.violate(
+                                sig,
+                                format!("{}: {what}", c.label()),
+                                json!({"config": c.text(), "history": render_hist(&hist), "observed": raw, "expected": render_touts(&exp, &nm), "note": "the blocking predicate is consulted before every tick, as the processing loop does"}),
+                            );
+                        }
+                    }
+                    if out.sample.is_none() && a == 0 && evs.len() >= 6 {
+                        out.sample = Some(json!({"config": c.text(), "history": render_hist(&hist), "observed": raw, "expected": render_touts(&exp, &nm)}));
+                    }
+                }
+            }
+        }
+        out
     }
     fn rule(&self) -> String {
-        "not implemented".into()
+        "case = (a) one configuration (virtual key sets {key}, {key,key}, {key,layer-while-held}, {key,layer,macro}; trigger path direct fake-key call / on-press / on-release / legacy on-press-fakekey / legacy on-release-fakekey / macro item / defseq completion) and a chunk of ALL operation histories up to N operations over every (virtual key, press|release|tap|toggle) pair (macro keys: tap only); quick N=5 (4 for the larger sets on the slower paths), thorough N=7 (6); every history is compared with the reference model after every operation (OS key state, active layer) and as a whole (OS key stream, plus a probe key press showing the layer through the OS stream); the model is the same for every path, so equal effect across paths is implied; (b) hold-for-duration D in {10,40} and on-idle D in {10,40} (+ legacy form): a first activation followed by up to 2 (quick) / 3 (thorough) further taps of the same key, a second key with the same action or a plain key, at every combination of distances around D (D-2..D+2, small, 2D) and two hold lengths, compared tick by tick with the model while the blocking predicate is consulted before every tick; (c) on-idle armed before a long macro: fires exactly once and not before D ticks after the macro's last output. Non-trivial = history/scenario ran and was judged; distinct = (configuration, first four operations) / (configuration, events, re-arms, episodes, firings).".into()
     }
     fn assumptions(&self) -> Vec<String> {
-        vec![]
+        vec![
+            "operations are spaced so that each one has taken effect before the next (at least 4 ticks and until kanata is quiet); rapid-fire operations within one tick are not judged".into(),
+            "a virtual key with a macro action is only tapped (a macro cannot be held; the guide's press/toggle wording has no meaning for it)".into(),
+            "layer-while-held virtual keys are observed through Layout::current_layer after every operation and through a probe key in the OS stream at the end of each history".into(),
+            "timed forms: processing discipline of DESIGN appendix A (one queued event per tick; virtual key events are queued behind pending physical events); hold-for-duration releases D ticks after the tick of the latest activation; on-idle fires in the tick in which D idle loop iterations have been counted, any input resets the count".into(),
+            "on-idle is only exercised with tap actions and re-armed only after it fired".into(),
+            "the TCP path is represented by the function the TCP server calls (handle_fakekey_action); no socket is opened".into(),
+        ]
+    }
+    fn floors(&self, _ctx: &Ctx) -> Vec<(&'static str, u64)> {
+        vec![
+            ("op_histories", 50_000),
+            ("op_histories_Direct", 5_000),
+            ("op_histories_OnPress", 5_000),
+            ("op_histories_OnRelease", 2_000),
+            ("op_histories_LegacyPress", 2_000),
+            ("op_histories_LegacyRelease", 2_000),
+            ("op_histories_MacroItem", 2_000),
+            ("op_histories_Seq", 2_000),
+            ("ops_toggle", 20_000),
+            ("ops_tap", 20_000),
+            ("hold_rearms", 500),
+            ("hold_episodes", 1_000),
+            ("idle_firings", 1_000),
+            ("idle_countdowns_interrupted", 200),
+            ("idle_firings_after_busy_period", 4),
+        ]
+    }
+    fn exhaustive(&self, _ctx: &Ctx) -> bool {
+        true
     }
 }
